@@ -1,6 +1,7 @@
 import Fosite.Driver.Wire
 import Fosite.Model.Scope
 import Fosite.Spec.Scope
+import Fosite.Driver.PureAudience
 namespace Fosite.Driver
 open Fosite
 
@@ -10,6 +11,7 @@ def pureModel (fs : List String) : Option String :=
   | ["scope", "wildcard", hay, needle] => some (boolStr (Model.wildcardScope ((decList hay).map chars) (chars needle)))
   | ["scope", "hierarchic", hay, needle] => some (boolStr (Model.hierarchicScope ((decList hay).map chars) (chars needle)))
   | ["scope", "exact", hay, needle] => some (boolStr (Model.exactScope ((decList hay).map chars) (chars needle)))
+  | "audience" :: _ => pureModelAudience fs
   | _ => none
 
 /-- spec side: the documented meaning, used as the monitor oracle on implementation outputs -/
@@ -18,6 +20,7 @@ def pureSpec (fs : List String) : Option String :=
   | ["scope", "wildcard", hay, needle] => some (boolStr (Spec.wildcard ((decList hay).map chars) (chars needle)))
   | ["scope", "hierarchic", hay, needle] => some (boolStr (Spec.hierarchic ((decList hay).map chars) (chars needle)))
   | ["scope", "exact", hay, needle] => some (boolStr (Spec.exact ((decList hay).map chars) (chars needle)))
+  | "audience" :: _ => pureSpecAudience fs
   | _ => none
 
 end Fosite.Driver
